@@ -23,6 +23,9 @@ package main
 
 import (
 	"fmt"
+	"os"
+	"runtime"
+	"time"
 
 	"verifharness/core"
 	"verifharness/hx"
@@ -231,16 +234,27 @@ func c10Insert(ops []c10Op, pos int, op c10Op) []c10Op {
 
 func c10Gen(ctx *core.Ctx) {
 	r := ctx.R
+	t0, last := time.Now(), "start"
+	mark := func(next string) {
+		if os.Getenv("C10_TIMING") != "" {
+			fmt.Fprintf(os.Stderr, "c10 timing: %-10s %7.1fs  (cases so far %d, goroutines %d)\n", last,
+				time.Since(t0).Seconds(), ctx.Sink.Len(), runtime.NumGoroutine())
+		}
+		t0, last = time.Now(), next
+	}
+	defer mark("end")
 	scale := 1
 	if ctx.Thorough {
 		scale = 20
 	}
 
+	mark("debounce")
 	// --- debounce ---------------------------------------------------------------------------
 	for i := 0; i < 260*scale; i++ {
 		c10Must(ctx, c10GenDebounce(r, i%10 == 9), "debounce")
 	}
 
+	mark("stall")
 	// --- stall: every pair of follow-up actions after the burst --------------------------------
 	// (the 52nd value is the one that blocks: 51 = nothing blocked yet, 53+ = further values
 	// pile up in the queue behind the blocked delivery)
@@ -278,6 +292,7 @@ func c10Gen(ctx *core.Ctx) {
 		c10Must(ctx, in, "stall")
 	}
 
+	mark("sweep")
 	// --- sweep: cancellation / Close at every position ---------------------------------------
 	// short base without blocking: every position
 	short := c10Input{Interval: 10, Ops: []c10Op{
@@ -319,6 +334,7 @@ func c10Gen(ctx *core.Ctx) {
 		}
 	}
 
+	mark("expiry")
 	// --- expiry: Batch at the very instant its key's pending value comes due ---------------------
 	for i := 0; i < 30*scale; i++ {
 		iv := []int{2, 5, 10}[r.Intn(3)]
@@ -353,6 +369,7 @@ func c10Gen(ctx *core.Ctx) {
 		c10Must(ctx, in, "expiry")
 	}
 
+	mark("leave")
 	// --- leave: a subscriber deregisters WHILE a fan-out is in progress (blocked on a stalled one that
 	// then resumes), with subscribers registered before and after both; more values follow
 	for i := 0; i < 16*scale; i++ {
@@ -370,6 +387,7 @@ func c10Gen(ctx *core.Ctx) {
 			c10Op{Op: "batch", K: 500}, c10Op{Op: "adv", D: iv}, c10Op{Op: "batch", K: 501}, c10Op{Op: "adv", D: iv})
 		c10Must(ctx, in, "leave")
 	}
+	mark("churn")
 	// --- churn: subscribers join and leave in every order (not only last-in-first-out), values
 	// in between: every subscriber that stayed must get every value
 	for i := 0; i < 40*scale; i++ {
@@ -402,6 +420,7 @@ func c10Gen(ctx *core.Ctx) {
 		c10Must(ctx, in, "churn")
 	}
 
+	mark("degenerate")
 	// --- degenerate: Subscribe with a context that has already ended / that ends while the call is
 	// still waiting for the lock; on an idle open batcher, among other subscribers, while a
 	// delivery is blocked, after Close
@@ -458,6 +477,7 @@ func c10Gen(ctx *core.Ctx) {
 		c10Must(ctx, in, "degenerate")
 	}
 
+	mark("ties")
 	// --- ties: a subscriber more than its capacity behind while SEVERAL keys come due on the same
 	// clock step, other subscribers reading promptly; then it resumes: it must see them in the
 	// same order as the others (due-time ties: the model's order is not fixed, the oracle judges)
@@ -477,6 +497,7 @@ func c10Gen(ctx *core.Ctx) {
 		c10Must(ctx, in, "ties")
 	}
 
+	mark("mass")
 	// --- mass: many subscribers, channels probed by the caller at the moment Close returns
 	for i := 0; i < 6*scale; i++ {
 		m := c10MassInput{Mass: true, Subs: []int{300, 1000, 2500}[i%3], Value: i%2 == 1, Closers: 1 + i/3%2,
@@ -489,6 +510,7 @@ func c10Gen(ctx *core.Ctx) {
 		}
 	}
 
+	mark("inflight")
 	// --- inflight: Batch calls WHILE a fan-out is blocked on a stalled subscriber — for the key whose
 	// value is being fanned out, for keys queued up behind it, for fresh keys, once or twice — then
 	// the subscriber lets go (reads everything / leaves) and time passes; no Close: at the end every
@@ -524,6 +546,7 @@ func c10Gen(ctx *core.Ctx) {
 		c10Must(ctx, in, "inflight")
 	}
 
+	mark("race")
 	// --- race: Subscribe overlapping Close with no quiescence in between
 	for i := 0; i < 4*scale; i++ {
 		in := c10RaceInput{Race: true, Attempts: 400, Seed: r.U64(), Ended: i%4 == 2, Second: i%4 == 3}
@@ -532,6 +555,7 @@ func c10Gen(ctx *core.Ctx) {
 		}
 	}
 
+	mark("closes")
 	// --- closes: Close called several times, overlapping or one after the other -----------------
 	// (a) while the first is held up by a delivery blocked on a live stalled subscriber: 1..3
 	//     further calls, then one way of releasing (or none), then possibly yet another call
@@ -571,6 +595,7 @@ func c10Gen(ctx *core.Ctx) {
 		c10Must(ctx, in, "closes")
 	}
 
+	mark("multi")
 	// --- multi: several stalled subscribers leave one after the other ---------------------------
 	for i := 0; i < 6*scale; i++ {
 		k := r.Range(2, 4)
